@@ -541,6 +541,7 @@ def explore(ctx, name, r, depth, combos, every=None, extra=()):
     """replay all paths of the emitted graph; combos = list of (mode, FdTs, Ts); every path is run under
     `every` combos chosen round-robin (None: under all of them) plus one of `extra` (round-robin)"""
     ctx.account(r, MODULE, name)
+    r.out = ""          # the parsed edges are all that is needed from here on
     unknown = {x for e in r.emitted for x in e.get("req", ())} - set(LAWS)
     if unknown or not all(e.get("req") for e in r.emitted):
         raise tlc.TlcError(f"{name}: the specification names laws the replay does not implement: {sorted(unknown)}")
